@@ -16,7 +16,7 @@ def plan(tier):
         Q(P, 1, ['-x', '--o=v', 'p'], second=['***'], wit=W2[:2]),  # and the other way round: any first vector
         Q(P, 2, ['***'], second=['--no-a'], wit=W2[:1] + W2[2:]),
         Q(P, 2, ['--no-a'], second=['***'], wit=W2[:2]),
-        Q(P, 3, ['-o', 'v', '--m=w'], second=['****'], wit=W2[2:]),
+        Q(P, 3, ['-o', 'v', '--m=w'], second=['****'], wit=W2[1:2]),
         Q(P, 5, ['**'], second=['--o=c', '-t'], env={0: '**', 2: '**'}, wit=W2[:1] + W2[2:]),   # environment-sourced values must not stick either
         Q(P, 5, ['--o=c'], second=['**'], env={0: '**', 1: '**'}, wit=W2[:2]),
         Q(P, 6, ['***'], second=[], wit=W2[:1] + W2[2:]),           # defaults used by the first parse must still be there for the second
